@@ -45,11 +45,43 @@ def run(prog, chk):
     malformed(prog, chk)
     once_and_rng(prog, chk)
     single_precision_only(prog, chk)
+    one_evaluation_per_element(prog, chk)
+    from props import C15
+    C15.reuse_overrides_evaluated(prog, chk)  # the overrides a <reuse> hands to its target are the evaluated ones (not evaluated again)
     from props import geomalg
     n = geomalg.check_sites(prog, chk, "C14")
     chk.floor("A17.site-algebra", n, 36, "built-in function compared with the reference algebra")
     from props import strops
     strops.check_for(prog, chk, "C14")  # A14.str-ops: how this property's strings are cut up is a reviewed, frozen inventory
+
+
+def one_evaluation_per_element(prog, chk):
+    """the attributes of an element are evaluated once per processing: no function calls eval_attributes on two copies
+    of the same source element (a second evaluation draws random numbers again and re-expands variables)"""
+    n = 0
+    for b in prog.bodies.values():
+        if b.unit != "svgdx-lib":
+            continue
+        sites = b.call_sites(R.path_endswith("SvgElement::eval_attributes"))
+        if not sites:
+            continue
+        groups = {}
+        for (bb, t, c) in sites:
+            n += 1
+            l = R.origin_local(b, t["args"][0])
+            src = ("local", l)
+            if l is not None:
+                d = b.single_def(l)
+                if d is not None and d[1] == R.TERM and "fn" in d[2] and Callee(d[2]["fn"]).decl_path == "std::clone::Clone::clone":
+                    o = R.origin(b, d[2]["args"][0], carriers={})
+                    if o[0] == "field":
+                        src = ("field", o[1][0], tuple(str(z) for z in o[1][1] if z != "*"))
+                    elif o[0] == "arg":
+                        src = ("arg", o[1])
+            groups.setdefault(src, []).append((bb, t))
+        for src, gs in groups.items():
+            chk.ob(len(gs) == 1, "A13.single-evaluation", f"{b.short}:{'.'.join(str(x) for x in src[1:])}", b.where(gs[0][0], gs[0][1].get("line")), "one eval_attributes call per source element", f"{b.short} evaluates the attributes of {len(gs)} copies of the same element ({', '.join(b.where(x, t.get('line')) for x, t in gs)}): every `{{{{..}}}}` in them runs twice per occurrence - random() / randint() draw twice, so everything after it sees a different sequence")
+    chk.floor("A13.single-evaluation", n, 4, "eval_attributes call site")
 
 
 def _fn(prog, name):
